@@ -242,7 +242,11 @@ def run(chk):
             problems = []
             init = [p for p in bst if not p["loops"] and p["op"] == "="]
             accb = [p for p in bst if p["loops"] and p["op"] in ("+=", "-=")]
-            if len(init) != 1 or len(accb) != 1:
+            onto = [p for p in bst if not p["loops"] and p["op"] in ("+=", "-=")]
+            if not init and onto:
+                problems.append("b is never assigned: message, noise and <a,s> are ADDED to whatever b held before (line %s), so encrypting into a sample "
+                                "that was used before (or anything but a freshly constructed one) gives phase = old b + m + noise" % onto[0]["line"])
+            elif len(init) != 1 or len(accb) != 1:
                 problems.append("b is written by %d initialisations and %d accumulations" % (len(init), len(accb)))
             else:
                 iv = init[0]["val"]
